@@ -229,6 +229,9 @@ func TestVerifC09(t *testing.T) {
 		c09Scenario("pipeline-tcp-L2-c2-dialfail-closer", tOpt{Kind: "pipeline-tcp", Callers: 2, MaxCq: 2, LazyQueue: 2, Srv: all, DialMenu: []int{0, 1}, Closer: true}, pp(1, 2), false),
 		c09Scenario("lazy-tcp-L2-q2-c3-withdraw", tOpt{Kind: "lazy-tcp", Callers: 3, MaxCq: 2, LazyQueue: 2, Srv: all, Withdraw: true}, pp(2, 3), false),
 		c09Scenario("lazy-tcp-L2-q2-c2-seq2-withdraw-slowdial", tOpt{Kind: "lazy-tcp", Callers: 2, Seq: 2, MaxCq: 2, LazyQueue: 2, Srv: all, Withdraw: true, DialMenu: []int{5}}, pp(1, 2), false),
+		// every wire ID of the next 100 is taken: the query is refused ("too many queries") - and its slot must come back
+		c09Scenario("tdc-udp-L3-c2-seq2-qid-exhausted", tOpt{Kind: "tdc-udp", Callers: 2, Seq: 2, MaxCq: 3, Srv: all, StartQid: 0xFFF0, SeedQueue: 100}, pp(1, 2), false),
+		c09Scenario("tdc-tcp-L2-c1-seq3-qid-exhausted", tOpt{Kind: "tdc-tcp", Callers: 1, Seq: 3, MaxCq: 2, Srv: all, StartQid: 0x0010, SeedQueue: 100}, pp(1, 2), false),
 		c09Scenario("reuse-c2-seq2-cancel", tOpt{Kind: "reuse", Callers: 2, Seq: 2, Srv: srvOpt{Reorder: true}, CtxMode: []int{2, 0}}, pp(1, 2), false),
 		c09Scenario("reuse-c2-seq2", tOpt{Kind: "reuse", Callers: 2, Seq: 2, Srv: all}, pp(2, 3), true),
 	}
